@@ -180,7 +180,13 @@ class _DT:
         return self._r.type(v)
 
     def __eq__(self, o):
-        return self._r == (o._r if isinstance(o, _DT) else o)
+        o = o._r if isinstance(o, _DT) else o
+        # A4: an object payload stands for the float64 / complex128 payload of the same item size, so a dtype unyt builds
+        # for "the float type of this array" compares equal to the dtype of that payload (`arr.dtype == np.dtype("f8")`
+        # guards take the branch they take for float data). Only dtypes built inside unyt are _DT; nothing else changes.
+        if isinstance(o, np.dtype) and o.kind == "O" and self._r.kind in "fc" and self._r.itemsize == (8 if self._r.kind == "f" else 16):
+            return True
+        return self._r == o
 
     def __hash__(self):
         return hash(self._r)
